@@ -44,7 +44,7 @@ pub struct SInsn {
 }
 
 fn sinsn() -> impl Strategy<Value = SInsn> {
-    (any::<u16>(), any::<u8>(), super::c17::off_strategy(), super::c17::imm_strategy(), any::<i32>())
+    (any::<u16>(), any::<u8>(), super::c17::off_strategy(), super::c17::imm_strategy(), prop_oneof![2 => super::c17::imm_strategy(), 1 => Just(0i32), 1 => any::<i32>()])
         .prop_map(|(opc_sel, regs, off, imm, hi)| SInsn { opc_sel, regs, off, imm, hi })
 }
 
